@@ -13,6 +13,8 @@
 (*  k = "cursor" a sequence of _next_char calls / index rewinds on a chunked       *)
 (*               cursor with the observable cursor state after each.              *)
 (*  k = "kv"     Keyvalues.parse on the text in several delivery forms.            *)
+(*  k = "calls"  a script of caller operations (call, peek, push_back, expect) on   *)
+(*               one tokenizer per delivery form, with the result of each.         *)
 EXTENDS TokenizerRec, TLC, Json, IOUtils
 
 Recs == ndJsonDeserialize(IOEnv.TRACE_FILE)
@@ -44,11 +46,14 @@ LexRec(r) ==
         THEN Bad("lex.chunking", [forms |-> IF \E k \in 1..Len(r.outs) : ~Agrees(r.outs[k], exp, r.etype)
                                             THEN r.outs[CHOOSE k \in 1..Len(r.outs) : ~Agrees(r.outs[k], exp, r.etype)].forms
                                             ELSE r.outs[2].forms, exp |-> exp])
+    \* linear: at most 2 (n + 1) cursor reads up to the first EOF / the error
+    ELSE IF r.outs[1].n > 2 * (Len(r.text) + 1) THEN Bad("lex.linear", 2 * (Len(r.text) + 1))
     \* the code is the specified lexer
     ELSE IF ~FoldTableOK(r.fold) THEN Bad("record.shape", 0)
     ELSE IF r.outs[1].err # exp.err THEN Bad("lex.error", exp)
     ELSE IF r.outs[1].toks # exp.toks THEN Bad("lex.tokens", exp)
     ELSE IF ~Agrees(r.outs[1], exp, r.etype) THEN Bad("lex.type", exp)
+    ELSE IF r.outs[1].n # exp.n THEN Bad("lex.reads", exp.n)
     ELSE Good
 
 (* ---- steps ---------------------------------------------------------------------- *)
@@ -99,10 +104,32 @@ KvRec(r) ==
     \* the parser reads the token stream of the specified lexer: a lexer error it reports is the
     \* first one of that stream, and it cannot succeed past one
     ELSE IF r.outs[1].err.id \in ErrIds /\ r.outs[1].err # L.err THEN Bad("kv.lexerror", L.err)
-    ELSE IF r.outs[1].etype = "" /\ L.err # NoErrL THEN Bad("kv.lexok", L.err)
+    ELSE IF r.outs[1].etype = "" /\ ~r.popts.single_block /\ L.err # NoErrL THEN Bad("kv.lexok", L.err)
     ELSE Good
 
+(* ---- caller operations -------------------------------------------------------------- *)
+RECURSIVE CallsFrom(_, _, _, _, _)
+CallsFrom(L, script, j, s, acc) ==
+    IF j > Len(script) THEN [res |-> acc, err |-> NoErrL]
+    ELSE LET op == script[j]
+             c == CASE op.op = "call" -> Call(L, s)
+                    [] op.op = "peek" -> Peek(L, s)
+                    [] op.op = "push" -> PushBack(s, op.t, op.v)
+                    [] op.op = "expect" -> ExpectFrom(L, s, op.t, op.skip)
+         IN  IF c.err # NoErrL THEN [res |-> acc, err |-> c.err]
+             ELSE CallsFrom(L, script, j + 1, c.s, Append(acc, [t |-> c.res.t, v |-> c.res.v, l |-> c.s.l]))
+CallsRec(r) ==
+    LET L == Lex(r.text, CfOf(r))
+        exp == CallsFrom(L, r.script, 1, CallInit, <<>>)
+    IN  IF \E k \in 1..Len(r.outs) : r.outs[k].etype \notin {"", r.etype}
+            THEN Bad("calls.total", [forms |-> r.outs[CHOOSE k \in 1..Len(r.outs) : r.outs[k].etype \notin {"", r.etype}].forms])
+        ELSE IF Len(r.outs) # 1 THEN Bad("calls.chunking", [forms |-> r.outs[2].forms, exp |-> exp])
+        ELSE IF r.outs[1].err # exp.err THEN Bad("calls.error", exp)
+        ELSE IF r.outs[1].res # exp.res THEN Bad("calls.results", exp)
+        ELSE Good
+
 Verdict(r) == CASE r.k = "lex" -> LexRec(r)
+                [] r.k = "calls" -> CallsRec(r)
                 [] r.k = "steps" -> StepsRec(r)
                 [] r.k = "cursor" -> CursorRec(r)
                 [] r.k = "kv" -> KvRec(r)
